@@ -224,6 +224,7 @@ var (
 	G6_62    = Geometry{"v6-62-64", "2001:db8:ff:fffc::/62", 64}
 	G4_24    = Geometry{"v4-24-32", "10.20.30.0/24", 32}
 	G4_22    = Geometry{"v4-22-32", "10.20.252.0/22", 32}
+	G4_23    = Geometry{"v4-23-32", "10.8.0.0/23", 32}
 	G6_48_56 = Geometry{"v6-48-56", "2001:db8:77::/48", 56}
 	G6_116   = Geometry{"v6-116-128", "2001:db8::f000/116", 128}
 )
@@ -265,7 +266,7 @@ func LargeCatalogue(nsubs int) []Adapter {
 }
 
 func FindAdapter(name string, nsubs int) (Adapter, bool) {
-	for _, a := range append(Catalogue(), LargeCatalogue(nsubs)...) {
+	for _, a := range append(append(Catalogue(), LargeCatalogue(nsubs)...), dhcpPoolAdapterGW(G4_23, 0, 257)) {
 		if a.Name() == name {
 			return a, true
 		}
